@@ -225,14 +225,16 @@ Fixpoint count_lead_ws (s : string) : nat :=
   match s with String c r => if is_ws c then S (count_lead_ws r) else 0 | EmptyString => 0 end.
 Fixpoint spaces (n : nat) : string := match n with O => EmptyString | S k => String SP (spaces k) end.
 
-Definition trans_line (t : transition) (l0 : string) : list string :=
-  let l := trans_subst t l0 in
+(* what becomes of a line after the names of the transition have been filled in *)
+Definition trans_tail (l : string) : list string :=
   if existsb (hasSpecificTag l) cond_tags then
     match snd (extractDefaultAndTag l EQ) with
     | EmptyString => []
     | alt => [(spaces (count_lead_ws l) ++ alt ++ nl_str)%string]
     end
   else if forallb (fun tg => negb (contains tg l)) drop_tags then [l] else [].
+
+Definition trans_line (t : transition) (l0 : string) : list string := trans_tail (trans_subst t l0).
 
 Definition guard_expansion (tl : list transition) (snippet : list string) (param : option string) : option (list string) :=
   match param with Some _ => None
